@@ -5,7 +5,7 @@ ID = "C14"
 AH = "paramiko.auth_handler.AuthHandler."
 TARGETS = [AH + "_parse_userauth_request", AH + "_send_auth_result", AH + "_get_session_blob",
            "paramiko.auth_handler.GssapiWithMicAuthHandler._parse_userauth_gssapi_mic"]
-REPLAY = {"*": "c14.replay_auth"}
+REPLAY = {"*": "c14.replay_auth", "publickey_success_only_with_verified_signature": "c14.publickey_without_proof"}
 MAX_PATHS = 30000
 
 
